@@ -707,12 +707,22 @@ func c13LeaveJoin() (out explore.SchedOutcome) {
 // c13Order (E-SCHED): one user changes its name twice in a row, then leaves; an observer that applies the
 // notifications in the order it receives them must end up with the server's list - i.e. notices about
 // one user reach each recipient in the order they were issued.
-func c13Order(leave bool) func() explore.SchedOutcome {
+func c13Order(leave bool) func() explore.SchedOutcome { return c13OrderMode(leave, false) }
+
+// c13OrderMode with edit: instead of renaming itself, the user's account is edited by an administrator (a privilege
+// change is announced to everybody for each session of the account) while the user hangs up.
+func c13OrderMode(leave, edit bool) func() explore.SchedOutcome {
 	return func() (out explore.SchedOutcome) {
 		vrt.BeginSetup()
 		wd := world.New(world.Cfg{Accounts: c13Accounts, Agreement: "agree?"})
 		defer wd.Close()
 		probe, r := wd.Connect("10.9.9.9:999", "probe", "pp", "probe")
+		var adm *world.Client
+		if edit {
+			// the administrator connects first: the default schedule then carries out the whole edit before the user
+			// leaves, and one deviation (the edit held up after it has looked up the account's sessions) reaches the window
+			adm, _ = wd.Connect("10.0.0.3:3", "admin", "a", "adm")
+		}
 		x, rx := wd.Connect("10.0.0.2:2", "user", "u", "start")
 		if r == nil || rx == nil || r.Err != 0 || rx.Err != 0 {
 			out.Violations = append(out.Violations, explore.SchedV{Signature: "C13/setup", Detail: "logins failed"})
@@ -723,8 +733,13 @@ func c13Order(leave bool) func() explore.SchedOutcome {
 			roster[u.ID] = u
 		}
 		probe.New()
-		x.Send(ref.Tx{Type: ref.TSetClientUserInfo, Fields: []ref.Fld{ref.FS(ref.FUserName, "first"), ref.F16(ref.FUserIconID, 5)}})
-		x.Send(ref.Tx{Type: ref.TSetClientUserInfo, Fields: []ref.Fld{ref.FS(ref.FUserName, "second"), ref.F16(ref.FUserIconID, 6)}})
+		if edit {
+			acc := world.Bits(ref.PAnyName, ref.PSendPrivMsg, ref.POpenChat, ref.PGetClientInfo, ref.PReadChat, ref.PSendChat, ref.PDisconUser)
+			adm.Send(ref.Tx{Type: ref.TSetUser, Fields: []ref.Fld{ref.F(ref.FUserLogin, ref.Obfuscate([]byte("user"))), ref.FS(ref.FUserName, "User"), ref.F(ref.FUserPassword, []byte{0}), ref.F(ref.FUserAccess, acc[:])}})
+		} else {
+			x.Send(ref.Tx{Type: ref.TSetClientUserInfo, Fields: []ref.Fld{ref.FS(ref.FUserName, "first"), ref.F16(ref.FUserIconID, 5)}})
+			x.Send(ref.Tx{Type: ref.TSetClientUserInfo, Fields: []ref.Fld{ref.FS(ref.FUserName, "second"), ref.F16(ref.FUserIconID, 6)}})
+		}
 		if leave {
 			x.Hangup()
 		}
@@ -761,7 +776,11 @@ func c13Order(leave bool) func() explore.SchedOutcome {
 		sort.Strings(folded)
 		sort.Strings(fresh)
 		if strings.Join(folded, ",") != strings.Join(fresh, ",") {
-			out.Violations = append(out.Violations, explore.SchedV{Signature: "C13/order/folded-roster-differs-from-fresh-list", Detail: fmt.Sprintf("a user renamed itself 'first', then 'second' (leave=%v): the observer applying its notifications in arrival order holds %v, the server lists %v", leave, folded, fresh)})
+			sig, what := "C13/order/folded-roster-differs-from-fresh-list", "a user renamed itself 'first', then 'second'"
+			if edit {
+				sig, what = "C13/order/user-announced-after-it-left", "an administrator edits the account of a user who hangs up at the same moment"
+			}
+			out.Violations = append(out.Violations, explore.SchedV{Signature: sig, Detail: fmt.Sprintf("%s (leave=%v): the observer applying its notifications in arrival order holds %v, the server lists %v", what, leave, folded, fresh)})
 		}
 		for _, pn := range vrt.S.Panics() {
 			out.Violations = append(out.Violations, explore.SchedV{Signature: "C13/order/panic/" + vrt.PanicSite(pn), Detail: pn})
@@ -830,6 +849,7 @@ func runC13(w *explore.Worker) {
 	for _, leave := range []bool{false, true} {
 		explore.ExploreSchedules(w, explore.SchedConfig{Harness: "C13order", Params: fmt.Sprint(leave), Bound: bound, FreeCost: 1, MaxSteps: 20000, Suspend: true}, c13Order(leave))
 	}
+	explore.ExploreSchedules(w, explore.SchedConfig{Harness: "C13order", Params: "edit", Bound: bound, FreeCost: 1, MaxSteps: 20000, Suspend: true}, c13OrderMode(true, true))
 }
 
 func replayC13(w *explore.Worker, raw json.RawMessage) {
@@ -846,6 +866,9 @@ func replayC13(w *explore.Worker, raw json.RawMessage) {
 		}
 		if sr.Harness == "C13order" {
 			body = c13Order(sr.Params == "true")
+			if sr.Params == "edit" {
+				body = c13OrderMode(true, true)
+			}
 		}
 		_, out, err := explore.RunSchedule(sr.Choices, 20000, body)
 		if err != nil {
